@@ -63,3 +63,44 @@ pub proof fn ks_run_step(k: KStep, s: KAbs, n: nat)
     assert(ks_run(k, r.0, 1).1 =~= seq![r1.1]);
     assert(r.1 + seq![r1.1] =~= r.1.push(r1.1));
 }
+
+// ---- pieces used by cipher::stream::{StreamCipher, StreamCipherSeek, wrapper} ----
+impl<'inp, 'out> InOutBuf<'inp, 'out, u8> {
+    // `assert_eq!(self.len(), data.len())` in the real crate: precondition
+    #[verifier::external_body]
+    pub fn xor_in2out(&mut self, data: &[u8])
+        requires old(self).out_cur().len() == data@.len(), old(self).wf()
+        ensures
+            final(self).out_cur() == xor_seq(old(self).in_val(), data@),
+            final(self).out_fut() == old(self).out_fut(),
+            final(self).inp == old(self).inp,
+            final(self).aliased == old(self).aliased,
+    { unimplemented!() }
+}
+
+#[derive(Debug)]
+pub struct StreamCipherError;
+#[derive(Debug)]
+pub struct OverflowError;
+impl From<OverflowError> for StreamCipherError {
+    #[verifier::external_body]
+    fn from(_x: OverflowError) -> StreamCipherError { StreamCipherError }
+}
+
+// SeekNum is implemented by a macro in the dependency (i32 u32 u64 u128 usize): assumed with its arithmetic
+// meaning.  A wrapper position (block, byte) with 1 <= byte <= bs denotes byte offset (block - 1) * bs + byte;
+// a requested offset p is cut into block = p / bs, byte = p % bs.
+pub trait SeekNum: Sized {
+    spec fn sn_val(self) -> int;
+    spec fn sn_fits(v: int) -> bool;
+    fn from_block_byte<T: StreamCipherCounter>(block: T, byte: u8, bs: u8) -> (r: Result<Self, OverflowError>)
+        requires 1 <= byte <= bs
+        ensures
+            r is Ok <==> T::cval(block) * (bs as int) - ((bs - byte) as int) >= 0 && Self::sn_fits(T::cval(block) * (bs as int) - ((bs - byte) as int)),
+            r is Ok ==> r->Ok_0.sn_val() == T::cval(block) * (bs as int) - ((bs - byte) as int);
+    fn into_block_byte<T: StreamCipherCounter>(self, bs: u8) -> (r: Result<(T, u8), OverflowError>)
+        requires bs >= 1
+        ensures
+            r is Ok ==> self.sn_val() >= 0 && T::cval(r->Ok_0.0) == self.sn_val() / (bs as int) && r->Ok_0.1 as int == self.sn_val() % (bs as int),
+            r is Err ==> self.sn_val() < 0 || !T::cfits(self.sn_val() / (bs as int));
+}
